@@ -232,6 +232,11 @@ func runReplSync(n uint64, page uint64, resetDelayMs int) (msg string) {
 	}
 	replSyncStage = "skip:reset-refused"
 	time.Sleep(time.Duration(resetDelayMs) * time.Millisecond)
+	// what the exporter is handed from the moment the reset is ISSUED counts (the re-export may well be over before
+	// ResetPipeline returns to its caller)
+	w.mu.Lock()
+	issuedAt := len(w.accepted)
+	w.mu.Unlock()
 	resetDone := make(chan error, 1)
 	go func() { resetDone <- mgr.ResetPipeline(ctx, replPipelineID) }()
 	select { // with the listing under the manager lock the reset waits for it; otherwise it completes now
@@ -250,7 +255,7 @@ func runReplSync(n uint64, page uint64, resetDelayMs int) (msg string) {
 		return "" // a refused reset promises nothing
 	}
 	w.mu.Lock()
-	w.resetAck = len(w.accepted)
+	w.resetAck = issuedAt
 	w.mu.Unlock()
 	// quiet: a few synchronisation periods and pull periods
 	complete := func() bool {
